@@ -121,6 +121,11 @@ Definition select (sch : list Z) (cols : option (list Z)) (rows : list row) : re
   | Some cs => if forallb (fun c => zmem c sch) cs then Ok (map (proj cs) rows) else Err EProj
   end.
 
+(* pa.concat_tables: tables without columns carry no row count through the concatenation -- the
+   result of scan(columns=[]) has no rows at all (the batch APIs yield one {} per row) *)
+Definition concat_tables (cols : option (list Z)) (ts : list (list row)) : list row :=
+  match cols with Some [] => [] | _ => concat ts end.
+
 (* ParquetFile.iter_batches(columns=...): unknown names are silently ignored *)
 Definition select_lenient (sch : list Z) (cols : option (list Z)) (rows : list row) : list row :=
   match cols with
@@ -278,7 +283,7 @@ Section Pipelines.
     bind (prepare PA flt) (fun ec =>
       match files with
       | [] => Ok []
-      | _ => bind (mapM (read_one verify cols (snd ec)) (prune_p (fst ec) files)) (fun ts => Ok (concat ts))
+      | _ => bind (mapM (read_one verify cols (snd ec)) (prune_p (fst ec) files)) (fun ts => Ok (concat_tables cols ts))
       end).
 
   (* _iter_file_batches, one batch *)
